@@ -27,7 +27,23 @@ pub fn iso3_from_param(p: &T3Storage) -> Iso3 {
 
 pub fn param_from_iso3(t: &Iso3) -> T3Storage {
     let v = t.translation.vector;
-    let e = t.rotation.euler_angles();
+
+    // `euler_angles()` only treats |m20| >= 1 exactly as gimbal lock. One rounding error below that
+    // it takes roll and yaw from matrix elements which are pure noise, so the whole neighbourhood
+    // of pitch = +/- pi/2 is handled here: only roll -/+ yaw is defined there, and it is all
+    // assigned to roll.
+    let r = t.rotation.to_rotation_matrix();
+    let m = r.matrix();
+    let e = if m[(2, 0)].abs() > 1.0 - 1.0e-14 {
+        if m[(2, 0)] < 0.0 {
+            (m[(0, 1)].atan2(m[(1, 1)]), std::f64::consts::FRAC_PI_2, 0.0)
+        } else {
+            ((-m[(0, 1)]).atan2(m[(1, 1)]), -std::f64::consts::FRAC_PI_2, 0.0)
+        }
+    } else {
+        t.rotation.euler_angles()
+    };
+
     T3Storage::new(v.x, v.y, v.z, e.0, e.1, e.2)
 }
 
